@@ -27,7 +27,31 @@ import (
 
 var verifClockNS atomic.Int64
 
-func verifNow() time.Time { return time.Unix(0, verifClockNS.Load()) }
+// The controlled clock hands the code times that carry a LOCATION, as the real time.Now() does
+// (process-local zone): per case either time.Local - which the harness sets to a fixed non-UTC
+// zone - or an explicit fixed zone.  The instants are the same; only code that derives
+// boundaries from the calendar fields of the location (instead of Truncate) is affected.
+var verifZone atomic.Pointer[time.Location]
+
+func verifNow() time.Time {
+	t := time.Unix(0, verifClockNS.Load()) // time.Local
+	if z := verifZone.Load(); z != nil {
+		return t.In(z)
+	}
+	return t
+}
+
+func verifSetZone(off *int) {
+	if off == nil {
+		verifZone.Store(nil)
+		return
+	}
+	if *off == 0 {
+		verifZone.Store(time.UTC)
+		return
+	}
+	verifZone.Store(time.FixedZone("verif", *off))
+}
 
 type verifSwOp struct {
 	K string `json:"k"` // a = Allow, p = Remaining, l = UpdateLimit
@@ -36,6 +60,7 @@ type verifSwOp struct {
 }
 
 type verifSwCase struct {
+	Zone *int       `json:"zone,omitempty"` // seconds east of UTC; absent = time.Local
 	W   int64       `json:"w"`
 	N   int         `json:"n"`
 	Lim int         `json:"lim"`
@@ -52,6 +77,7 @@ type verifQtOp struct {
 }
 
 type verifQtCase struct {
+	Zone *int       `json:"zone,omitempty"`
 	MH  int         `json:"mh"`
 	MD  int         `json:"md"`
 	T0  int64       `json:"t0"`
@@ -79,6 +105,7 @@ type verifItem struct {
 }
 
 type verifMgrCase struct {
+	Zone  *int        `json:"zone,omitempty"`
 	Def   verifPolicy `json:"def"`
 	Items []verifItem `json:"items"`
 }
@@ -162,9 +189,13 @@ func TestVerifGovern(t *testing.T) {
 	}
 	metrics.Init(zerolog.Nop())
 	ctx := context.Background()
+	// the process-local zone is NOT UTC (as on most deployments): UTC-11, whose midnight is
+	// 11:00 UTC
+	time.Local = time.FixedZone("verif-local", -11*3600)
 
 	for ci := range cs.Sw {
 		c := &cs.Sw[ci]
+		verifSetZone(c.Zone)
 		verifClockNS.Store(c.T0)
 		s := newSlidingWindowCounter(time.Duration(c.W), c.N, c.Lim)
 		c.Obs = []int64{}
@@ -191,6 +222,7 @@ func TestVerifGovern(t *testing.T) {
 
 	for ci := range cs.Qt {
 		c := &cs.Qt[ci]
+		verifSetZone(c.Zone)
 		verifClockNS.Store(c.T0)
 		q := newQuotaTracker(c.MH, c.MD)
 		c.Obs = [][]int64{}
@@ -215,6 +247,7 @@ func TestVerifGovern(t *testing.T) {
 
 	for ci := range cs.Mgr {
 		c := &cs.Mgr[ci]
+		verifSetZone(c.Zone)
 		m := verifManager(t, c.Def)
 		hasPolicy := map[int64]bool{}
 		type rk struct{ tok, rid int64 }
@@ -300,6 +333,7 @@ func TestVerifGovern(t *testing.T) {
 		}
 	}
 
+	verifSetZone(nil)
 	for fi := range cs.First {
 		f := &cs.First[fi]
 		if runtime.GOMAXPROCS(0) < 2 {
